@@ -57,10 +57,11 @@ static void on_signal(int s)
   ssize_t r = write(2, m, sizeof m - 1); (void)r;
   _exit(2);
   }
-static void install_guard()
+static void install_guard(bool with_abort = true)
   {
   struct sigaction sa; memset(&sa, 0, sizeof sa); sa.sa_handler = on_signal; sa.sa_flags = SA_NODEFER;
-  for(int s : { SIGFPE, SIGSEGV, SIGBUS, SIGILL, SIGABRT }) sigaction(s, &sa, nullptr);
+  for(int s : { SIGFPE, SIGSEGV, SIGBUS, SIGILL }) sigaction(s, &sa, nullptr);
+  if(with_abort) sigaction(SIGABRT, &sa, nullptr);
   }
 CallRes Ctx::call(fn2 f, int64_t a, int64_t b)
   {
@@ -221,6 +222,7 @@ static std::string json_of(const Stats & st, const Property & p, bool thorough, 
   return o;
   }
 
+#ifndef VERIF_FUZZ
 int main(int argc, char ** argv)
   {
   // usage: monitor <PROP> <quick|thorough> <seed> <out.json> [--threads N] [--replay check a b c] cfg.so...
@@ -275,3 +277,60 @@ int main(int argc, char ** argv)
   fputs(js.c_str(), f); fputc('\n', f); fclose(f);
   return 0;
   }
+#else
+// ------------------------------------------------------------------------------------------ libFuzzer entry (fuzz arm)
+// The instrumented wrappers + library are linked statically; libFuzzer's coverage and comparison feedback drive the
+// arguments of the property's named checks: input = [check index u8][a i64][b i64][c i64]. The judges are the same
+// oracles as in the value monitor. A violation whose key is not listed as known aborts, so that libFuzzer writes the
+// input as an artifact; the Python arm replays artifacts through the ordinary monitor for classification.
+extern "C" const w_entry w_entries[];
+extern "C" const char * w_cfg();
+static Property * fz_prop = nullptr;
+static Ctx * fz_ctx = nullptr;
+static std::set<std::string> fz_known, fz_seen;
+extern "C" int LLVMFuzzerInitialize(int *, char ***)
+  {
+  Cfg c; c.path = "static"; c.name = w_cfg();
+  for(const w_entry * t = w_entries; t->name; ++t) c.tab[t->name] = t->fn;
+  g_cfgs.push_back(c);
+  fingerprint();
+  const char * pid = getenv("VERIF_FUZZ_PROP");
+  for(auto p : registry()) if(pid && std::string(pid) == p->id) fz_prop = p;
+  if(!fz_prop) harness_fail("VERIF_FUZZ_PROP not set or unknown");
+  install_guard(false); // abort() must reach libFuzzer so that it writes the artifact
+  fz_prop->init();
+  fz_ctx = new Ctx; fz_ctx->prop = fz_prop; fz_ctx->nontrivial_cap = 1u << 16; fz_ctx->rng.seed(1, 1);
+  if(const char * kf = getenv("VERIF_FUZZ_KNOWN")) { FILE * f = fopen(kf, "r"); if(f) { char buf[1024]; while(fgets(buf, sizeof buf, f)) { std::string k = buf; while(!k.empty() && (k.back() == '\n' || k.back() == '\r')) k.pop_back(); if(!k.empty()) fz_known.insert(k); } fclose(f); } }
+  if(const char * sd = getenv("VERIF_FUZZ_SEEDDIR"))
+    { // seed corpus: lattice values for every check
+    const auto & L = lattice(); Rng r; r.seed(7, 7); int n = 0;
+    for(size_t k = 0; k < fz_prop->checks.size(); ++k)
+      for(int i = 0; i < 96; ++i)
+        {
+        int64_t v[3] = { L[r.below(L.size())], (i & 1) ? L[r.below(L.size())] : r.range(-70, 400), (i & 3) == 3 ? L[r.below(L.size())] : (int64_t)r.below(8) };
+        unsigned char buf[25]; buf[0] = (unsigned char)k; memcpy(buf + 1, v, 24);
+        std::string fn = std::string(sd) + "/seed" + std::to_string(n++); FILE * f = fopen(fn.c_str(), "wb"); if(f) { fwrite(buf, 1, 25, f); fclose(f); }
+        }
+    }
+  return 0;
+  }
+extern "C" int LLVMFuzzerTestOneInput(const uint8_t * d, size_t n)
+  {
+  if(n < 25) return 0;
+  const Check & ck = fz_prop->checks[d[0] % fz_prop->checks.size()];
+  int64_t v[3]; memcpy(v, d + 1, 24);
+  uint64_t before = fz_ctx->vio_total();
+  fz_ctx->run_check(ck, v[0], v[1], v[2]);
+  if(fz_ctx->vio_total() != before)
+    for(auto & kv : fz_ctx->st.vio)
+      if(!fz_seen.count(kv.first))
+        {
+        fz_seen.insert(kv.first);
+        if(fz_known.count(kv.first)) continue;
+        fprintf(stderr, "FUZZ-VIOLATION check=%s a=%" PRId64 " b=%" PRId64 " c=%" PRId64 " key=%s\n", ck.name, v[0], v[1], v[2], kv.first.c_str());
+        abort();
+        }
+  if(fz_ctx->st.samples.size() > 8) fz_ctx->st.samples.clear();
+  return 0;
+  }
+#endif
